@@ -67,7 +67,8 @@ def spec_on_impl(pos, edges, crossing, r, faces, S):
             cx = sum((pts[k][0] + pts[(k + 1) % n][0]) * (pts[k][0] * pts[(k + 1) % n][1] - pts[(k + 1) % n][0] * pts[k][1]) for k in range(n)) / (3 * a2)
             cy = sum((pts[k][1] + pts[(k + 1) % n][1]) * (pts[k][0] * pts[(k + 1) % n][1] - pts[(k + 1) % n][0] * pts[k][1]) for k in range(n)) / (3 * a2)
             c = np.array([float(cx), float(cy)])
-            if not np.all(np.abs(c - p["center"]) <= 1e-7 * (1 + np.abs(c))):
+            cond = 512 * n * 2.3e-16 / (float(a2) / 2)       # float conditioning of the centroid quotient on tiny plaquettes
+            if not np.all(np.abs(c - p["center"]) <= 1e-7 * (1 + np.abs(c)) + cond):
                 bad.append(("center", f"plaquette {i}: center {p['center']} is not the area centroid {c}"))
     # exactly the legit faces, each once
     if faces is not None:
